@@ -1,0 +1,146 @@
+//! C25: the write access controls a running server has loaded (the shipped defaults after
+//! migration), dumped with their target filters resolved for an identity exactly as
+//! `resolve_access_conditions` resolves them, and the live modify / delete access decision of
+//! the transaction's own `AccessControls`. Everything here only *reads* or *calls* server code.
+
+use crate::event::{DeleteEvent, ModifyEvent};
+use crate::filter::FilterResolved;
+use crate::prelude::*;
+use crate::server::access::profiles::{
+    AccessControlProfile, AccessControlReceiver, AccessControlTarget,
+};
+use crate::server::access::AccessControlsTransaction;
+use std::sync::Arc;
+
+#[derive(Debug, Clone)]
+pub enum HookReceiver {
+    Group(Vec<Uuid>),
+    EntryManager,
+    None,
+}
+
+/// One loaded profile. modify: s1 = presattrs, s2 = remattrs, c1 = pres_classes,
+/// c2 = rem_classes; create: s1 = attrs, c1 = classes; delete: sets unused.
+#[derive(Debug, Clone)]
+pub struct HookDumpAcp {
+    pub name: String,
+    pub receiver: HookReceiver,
+    /// `None`: the profile has no target, or its filter does not resolve for this identity.
+    pub target: Option<FilterResolved>,
+    pub s1: Vec<Attribute>,
+    pub s2: Vec<Attribute>,
+    pub c1: Vec<String>,
+    pub c2: Vec<String>,
+}
+
+#[derive(Debug, Clone, Default)]
+pub struct HookDump {
+    pub modify: Vec<HookDumpAcp>,
+    pub create: Vec<HookDumpAcp>,
+    pub delete: Vec<HookDumpAcp>,
+    pub sync: Vec<(Uuid, Vec<Attribute>)>,
+}
+
+fn head(
+    acp: &AccessControlProfile,
+    ident: &Identity,
+) -> (String, HookReceiver, Option<FilterResolved>) {
+    (
+        acp.name.clone(),
+        match &acp.receiver {
+            AccessControlReceiver::Group(g) => HookReceiver::Group(g.iter().copied().collect()),
+            AccessControlReceiver::EntryManager => HookReceiver::EntryManager,
+            AccessControlReceiver::None => HookReceiver::None,
+        },
+        match &acp.target {
+            AccessControlTarget::Scope(f) => f
+                .resolve(ident, None, None)
+                .ok()
+                .map(|r| r.to_inner().clone()),
+            AccessControlTarget::None => None,
+        },
+    )
+}
+
+/// Every loaded modify / create / delete profile in evaluation order and the sync agreements.
+pub fn dump_write_acps<'a, T: QueryServerTransaction<'a>>(qs: &mut T, ident: &Identity) -> HookDump {
+    let ac = qs.get_accesscontrols();
+    let modify = ac
+        .get_modify()
+        .iter()
+        .map(|a| {
+            let (name, receiver, target) = head(&a.acp, ident);
+            HookDumpAcp {
+                name,
+                receiver,
+                target,
+                s1: a.presattrs.clone(),
+                s2: a.remattrs.clone(),
+                c1: a.pres_classes.iter().map(|s| s.to_string()).collect(),
+                c2: a.rem_classes.iter().map(|s| s.to_string()).collect(),
+            }
+        })
+        .collect();
+    let create = ac
+        .get_create()
+        .iter()
+        .map(|a| {
+            let (name, receiver, target) = head(&a.acp, ident);
+            HookDumpAcp {
+                name,
+                receiver,
+                target,
+                s1: a.attrs.clone(),
+                s2: Vec::new(),
+                c1: a.classes.iter().map(|s| s.to_string()).collect(),
+                c2: Vec::new(),
+            }
+        })
+        .collect();
+    let delete = ac
+        .get_delete()
+        .iter()
+        .map(|a| {
+            let (name, receiver, target) = head(&a.acp, ident);
+            HookDumpAcp {
+                name,
+                receiver,
+                target,
+                s1: Vec::new(),
+                s2: Vec::new(),
+                c1: Vec::new(),
+                c2: Vec::new(),
+            }
+        })
+        .collect();
+    let mut sync: Vec<(Uuid, Vec<Attribute>)> = ac
+        .get_sync_agreements()
+        .iter()
+        .map(|(u, s)| (*u, s.iter().cloned().collect()))
+        .collect();
+    sync.sort();
+    HookDump {
+        modify,
+        create,
+        delete,
+        sync,
+    }
+}
+
+/// `modify_allow_operation` of the transaction's own (live) access controls.
+pub fn modify_allowed_live<'a, T: QueryServerTransaction<'a>>(
+    qs: &mut T,
+    me: &ModifyEvent,
+    entries: &[Arc<EntrySealedCommitted>],
+) -> Result<bool, OperationError> {
+    qs.get_accesscontrols().modify_allow_operation(me, entries)
+}
+
+/// `delete_allow_operation` of the transaction's own (live) access controls.
+pub fn delete_allowed_live<'a, T: QueryServerTransaction<'a>>(
+    qs: &mut T,
+    de: &DeleteEvent,
+    entries: &[Arc<EntrySealedCommitted>],
+) -> Result<bool, OperationError> {
+    qs.get_accesscontrols().delete_allow_operation(de, entries)
+}
